@@ -82,6 +82,39 @@ func (P *Program) genVC(fn *ssa.Function, opts genOpts) (vc *VC) {
 		f.assumePre()
 		vc.stack = []*ssa.Function{fn}
 		f.run(tTrue, entry)
+		if ct != nil && pass == 2 {
+			// every loop clause must have bound to a loop of the current source
+			nloops := len(f.loops)
+			names := map[string]bool{}
+			cnt := map[string]int{}
+			for _, l := range f.loops {
+				for _, nm := range loopNames(fn, l) {
+					names[nm] = true
+				}
+			}
+			for _, l := range f.loops {
+				for _, nm := range loopNames(fn, l) {
+					cnt[nm]++
+				}
+			}
+			for k := range ct.Loops {
+				ok := false
+				var ord int
+				if n, _ := fmt.Sscanf(k, "#%d", &ord); n == 1 {
+					ok = ord >= 1 && ord <= nloops
+				} else if i := strings.Index(k, "#"); i > 0 {
+					var c int
+					fmt.Sscanf(k[i+1:], "%d", &c)
+					ok = c >= 1 && c <= cnt[k[:i]]
+				} else {
+					ok = names[k]
+				}
+				if !ok {
+					vc.err = unsupported{fmt.Sprintf("stale contract: loop clause key %q binds to no loop of the current source", k)}
+					return vc
+				}
+			}
+		}
 		return vc
 	}
 	v1 := build(1)
